@@ -51,6 +51,8 @@ class RandStub(object):
 
 def check_case(case, acc):
     from cardutil import pinblock
+    if case.get('raw'):
+        return check_raw_cipher(case, acc)
     pin, pan = make(case)
     fmt = case['fmt']
     key = case.get('key')
@@ -168,6 +170,38 @@ def _run(case, acc, pinblock, pin, pan, fmt, key, fill, stub):
             acc.viol('c13.iso4.decrypt', case, back, pin, 'PIN from the encrypted block')
 
 
+CT_PATTERNS = ['0000000000000000', 'd86e17c0404d4700', '00112233445566', 'ffffffffffffffff', '2020202020202020',
+               '0a0a0a0a0a0a0a0a', '11223344556677', '0011223344556600', '1122334455660a', '11223344556620',
+               '1122334455667700', '0d0a0d0a0d0a0d0a', '4040404040404040', '7f00000000000000']
+
+
+def check_raw_cipher(case, acc):
+    """the mix-ins' encrypt / decrypt on blocks chosen (by decrypting with the reference cipher) so that the
+    CIPHERTEXT has a given shape: trailing / leading zero bytes, whitespace bytes, all equal bytes"""
+    from cardutil import pinblock
+    key = case['key']
+    kb = bytes.fromhex(key)
+    aes = case['alg'] == 'aes'
+    n = 16 if aes else 8
+    ct = bytes.fromhex((case['ct'] + '00' * 16)[:2 * n]) if len(case['ct']) < 2 * n else bytes.fromhex(case['ct'])[:n]
+    if case.get('tail'):
+        ct = ct[:n - 1] + bytes([case['tail']])
+    clear = aes_ref.ecb_decrypt(kb, ct) if aes else des_ref.tdes_ecb_decrypt(kb, ct)
+    mix = pinblock.AESEncryptedPinBlockMixin if aes else pinblock.TdesEncryptedPinBlockMixin
+    acc.case(('raw', case['alg'], key, ct.hex()), nontrivial=True, outcome='raw_cipher')
+    try:
+        got = mix.encrypt(key, clear)
+        back = mix.decrypt(key, ct)
+    except Exception as ex:
+        acc.viol('c13.cipher.exception', case, repr(ex), 'ciphertext ' + ct.hex())
+        return
+    if got != ct:
+        acc.viol('c13.cipher.encrypt', case, bytes(got).hex(), ct.hex(), 'ECB encryption of a block whose ciphertext is '
+                 + ct.hex())
+    elif back != clear:
+        acc.viol('c13.cipher.decrypt', case, bytes(back).hex(), clear.hex(), 'ECB decryption of ' + ct.hex())
+
+
 def enumerate_cases(tier, seed):
     cases = []
     for pl in range(4, 13):
@@ -212,6 +246,15 @@ def enumerate_cases(tier, seed):
             for d1 in (1, 5, 9):
                 for d2 in (3, 7, 9):
                     cases.append(dict(base, fmt='iso0', dev=[[w1, p1, d1], [w2, p2, d2]]))
+    for pat in CT_PATTERNS:
+        for key in TDES_KEYS:
+            cases.append({'raw': True, 'alg': 'tdes', 'key': key, 'ct': pat})
+        for key in AES_KEYS:
+            cases.append({'raw': True, 'alg': 'aes', 'key': key, 'ct': pat})
+    for tail in range(256):          # every value of the last ciphertext byte
+        cases.append({'raw': True, 'alg': 'tdes', 'key': TDES_KEYS[0], 'ct': '1122334455667788', 'tail': tail})
+        cases.append({'raw': True, 'alg': 'aes', 'key': AES_KEYS[2], 'ct': '11223344556677889900aabbccddeeff',
+                      'tail': tail})
     return cases
 
 
@@ -240,7 +283,9 @@ def describe(tier, seed):
                 'references for ciphertexts, from_enc_bytes returns the PIN; secrets.randbits is replaced by a counter: '
                 'one 64-bit draw per new block when no fill is supplied, none when supplied, two blocks get different '
                 'fills. Some encrypted cases are preceded by calls that must fail (data that is not a whole cipher block): '
-                'what those leave behind must not change the valid call.' % (len(TDES_KEYS), len(AES_KEYS), '3' if tier == 'quick' else '15'),
+                'what those leave behind must not change the valid call. The cipher mix-ins are also run on blocks chosen '
+                '(by decrypting with the reference cipher) so that the ciphertext ends or begins with 0x00 / 0x20 / '
+                '0x0a / 0x40, is all equal bytes, and has every value 0..255 as its last byte.' % (len(TDES_KEYS), len(AES_KEYS), '3' if tier == 'quick' else '15'),
         'assumptions': ['PIN and PAN are decimal digit strings', 'a supplied fill of 0 is outside the statement '
                         '(fills 1..2^64-1)', 'if the library draws randomness from another source than '
                         'secrets.randbits only freshness (two fills differ) is judged',
